@@ -18,7 +18,7 @@ structure StmtOK (N : Nat) (s : Stmt) : Prop where
     (∃ b, s.pkg.additional.int? = some b) ∧ (s.row.isShortBranch = false → 1 ≤ s.pkg.size)
   needs : s.pkg.needsRes = true →
     s.operand.value.isLeftRight = true ∧ (s.operand.kind = .indexed ∨ s.operand.kind = .extIndirect)
-  unfixed : s.pkg.needsRes = true → s.pkg.choices = [] → s.fixedSize = false
+  addl : s.pkg.needsRes = true → AddlOK N s.pkg.additional   -- (batch B3) what `fix_addresses` resolves, with or without choices
 
 /-! ### settle / determine -/
 
@@ -39,13 +39,10 @@ theorem settle_ok {N : Nat} {s : Stmt} (hs : StmtOK N s) {c0 c1 : Nat} (hch : s.
         pcrHint := hint, fixedSize := true } := by
       simp [settle, orPost, hraw, hpb]
     refine ⟨_, hset, ?_⟩
-    refine ⟨hs.val, hs.addr, ⟨hs.codes.1, nofun⟩, Or.inr ⟨c0, c1, hch, hd0, hd1, ⟨raw ||| c, rfl, or_lt_256 hrawlt hclt, hlen⟩, hadd⟩, ?_, hs.needs, ?_⟩
-    · intro hk
-      obtain ⟨h1, h2⟩ := hs.rel hk
-      exact ⟨h1, fun hsb => by have := h2 hsb; show 1 ≤ s.pkg.size + e; omega⟩
-    · intro _ h0
-      have : s.pkg.choices = [] := h0
-      rw [hch] at this; cases this
+    refine ⟨hs.val, hs.addr, ⟨hs.codes.1, nofun⟩, Or.inr ⟨c0, c1, hch, hd0, hd1, ⟨raw ||| c, rfl, or_lt_256 hrawlt hclt, hlen⟩, hadd⟩, ?_, hs.needs, hs.addl⟩
+    intro hk
+    obtain ⟨h1, h2⟩ := hs.rel hk
+    exact ⟨h1, fun hsb => by have := h2 hsb; show 1 ≤ s.pkg.size + e; omega⟩
 
 theorem determine_ok_choices {ss : List Stmt} {i : Nat} {s s' : Stmt} (h : determine ss i s = .ok s') :
     ∃ c0 c1, s.pkg.choices = [c0, c1] := by
@@ -315,10 +312,7 @@ theorem translateAll_good {N : Nat} (hN : 0 < N) : ∀ {a r : List Stmt}, transl
         · subst hs
           obtain ⟨hres, hrow⟩ := ha s (by simp)
           have hp := translateOperand_ok hN hres hrow hr
-          refine ⟨hres.good, hp.addr, hp.codes, hp.choices, hp.rel, hp.needs, ?_⟩
-          intro hn _
-          show (!p.needsRes && p.choices.isEmpty) = false
-          rw [show p.needsRes = true from hn]; rfl
+          exact ⟨hres.good, hp.addr, hp.codes, hp.choices, hp.rel, hp.needs, hp.addl⟩
         · exact ih hr2 (fun x hx => ha x (by simp [hx])) s' hs
 
 /-- **front half of the invariant**: after `buildSymTab`, `resolveAll` and `translateAll` on parsed statements
